@@ -208,11 +208,16 @@ def write_if_changed(path, text):
     return True
 
 
+# companion theorem files of a property (integrated ones only; Props/ may hold files still being written)
+COMPANIONS = {"C02": ["C02Wass"], "C03": ["C03Douglas"], "C08": ["C08Max"], "C09": ["C09Spec"]}
+
+
 def prove(prop, modules=None):
     """Re-check the theorems of Props/<prop>.lean.  Returns dict:
        {theorems: [...], discharged: [...], broken: [{theorem, reason}], build_ok, log}"""
-    modules = modules or [f"GemVerif.Props.{prop}"]
-    res = {"theorems": [], "discharged": [], "broken": [], "build_ok": False, "log": ""}
+    if not modules:
+        modules = [f"GemVerif.Props.{prop}"] + [f"GemVerif.Props.{c}" for c in COMPANIONS.get(prop, [])]
+    res = {"theorems": [], "discharged": [], "broken": [], "build_ok": False, "log": "", "modules": list(modules)}
     thms = []
     for m in modules:
         path = os.path.join(LEAN, m.replace(".", "/") + ".lean")
@@ -301,6 +306,91 @@ class DriverBuildError(Exception):
     """the model (possibly a regenerated unit) no longer compiles: the tie is broken"""
 
 
+
+# ---------------------------------------------------------------- source fingerprints (escalation only, never a verdict)
+def _units_of(path):
+    """{qualname: sha1 of ast.dump} for every function / method of a Python file (comments, layout and docstrings dropped);
+    for a .pyx file one unit per `def`/`cdef`/`cpdef` block of the comment-stripped text"""
+    import ast
+    src = open(path).read()
+    out = {}
+    if path.endswith(".pyx"):
+        cur, buf = "<module>", []
+        for line in src.split("\n"):
+            code = line.split("#")[0].rstrip()
+            if not code.strip():
+                continue
+            m = re.match(r"\s*(?:cp?def|def)\s+(?:[\w\.\[\], ]+\s+)?(\w+)\s*\(", code)
+            if m and not code.startswith(" " * 8):
+                out[cur] = hashlib.sha1("\n".join(buf).encode()).hexdigest()[:12]
+                cur, buf = m.group(1), []
+            buf.append(code)
+        out[cur] = hashlib.sha1("\n".join(buf).encode()).hexdigest()[:12]
+        return out
+    try:
+        tree = ast.parse(src)
+    except SyntaxError:
+        return {"<syntax-error>": hashlib.sha1(src.encode()).hexdigest()[:12]}
+
+    def strip_doc(node):
+        b = getattr(node, "body", None)
+        if b and isinstance(b[0], ast.Expr) and isinstance(getattr(b[0], "value", None), ast.Constant) \
+                and isinstance(b[0].value.value, str):
+            node.body = b[1:] or [ast.Pass()]
+
+    def walk(node, prefix):
+        for ch in getattr(node, "body", []):
+            if isinstance(ch, (ast.FunctionDef, ast.AsyncFunctionDef)):
+                strip_doc(ch)
+                out[prefix + ch.name] = hashlib.sha1(ast.dump(ch).encode()).hexdigest()[:12]
+            elif isinstance(ch, ast.ClassDef):
+                strip_doc(ch)
+                rest = [c for c in ch.body if not isinstance(c, (ast.FunctionDef, ast.AsyncFunctionDef))]
+                out[prefix + ch.name + ".<class-body>"] = hashlib.sha1(
+                    "".join(ast.dump(c) for c in rest + ch.bases + ch.decorator_list).encode()).hexdigest()[:12]
+                walk(ch, prefix + ch.name + ".")
+    strip_doc(tree)
+    top = [c for c in tree.body if not isinstance(c, (ast.FunctionDef, ast.AsyncFunctionDef, ast.ClassDef))]
+    out["<module>"] = hashlib.sha1("".join(ast.dump(c) for c in top).encode()).hexdigest()[:12]
+    walk(tree, "")
+    return out
+
+
+def source_fingerprints(repo=None):
+    repo = repo or REPO
+    res = {}
+    for root, dirs, files in os.walk(os.path.join(repo, "gemclus")):
+        dirs[:] = [d for d in dirs if d not in ("tests", "__pycache__")]
+        for f in sorted(files):
+            if f.endswith(".py") or f.endswith(".pyx"):
+                full = os.path.join(root, f)
+                res[os.path.relpath(full, repo)] = _units_of(full)
+    return res
+
+
+def anchored_files(prop):
+    for l in open(os.path.join(VERIF, "properties.jsonl")):
+        r = json.loads(l)
+        if r["id"] == prop:
+            return set(r["anchors"]["files"])
+    return set()
+
+
+def source_delta():
+    """[(file, unit)] whose fingerprint differs from harness/pinned_sources.json (or that appeared / disappeared)"""
+    pp = os.path.join(VERIF, "harness", "pinned_sources.json")
+    if not os.path.exists(pp):
+        return []
+    pins = json.load(open(pp))
+    cur = source_fingerprints()
+    out = []
+    for f in sorted(set(pins) | set(cur)):
+        a, b = pins.get(f, {}), cur.get(f, {})
+        for u in sorted(set(a) | set(b)):
+            if a.get(u) != b.get(u):
+                out.append((f, u))
+    return out
+
 # ---------------------------------------------------------------- verdict / evidence
 def load_known():
     p = os.path.join(VERIF, "known_findings.json")
@@ -313,7 +403,17 @@ class Ctx:
     def __init__(self, prop, tier, seed):
         self.prop = prop
         self.tier = tier
+        self.requested_tier = tier
         self.seed = seed
+        # anchored sources that differ from the pinned fingerprints: no verdict, only a deeper search (the hand-written
+        # models were validated against the pinned sources; regenerated units follow the source by themselves)
+        self.delta = source_delta()
+        anch = anchored_files(prop)
+        self.delta_anchored = [d for d in self.delta if d[0] in anch]
+        self.escalated = False
+        if tier == "quick" and self.delta_anchored and not os.environ.get("VERIF_NO_ESCALATE"):
+            self.tier = "thorough"
+            self.escalated = True
         self.rng = random.Random((seed, prop).__repr__())
         self.t0 = time.time()
         self.proof = None
@@ -428,7 +528,8 @@ class Ctx:
         cov = {
             "obligations": max(1, len(pr["theorems"])),
             "discharged": len(pr["discharged"]),
-            "checker_cmd": f"cd lean && lake build GemVerif.Props.{self.prop} && lake env lean GemVerif/Audit/{self.prop}.lean",
+            "checker_cmd": "cd lean && lake build " + " ".join(pr.get("modules") or [f"GemVerif.Props.{self.prop}"])
+                           + f" && lake env lean GemVerif/Audit/{self.prop}.lean",
             "trusted_base": self.trusted,
             "theorems": pr["theorems"],
             "undischarged": pr["broken"],
@@ -443,9 +544,11 @@ class Ctx:
             "exhaustive": self.exhaustive,
             "translation": self.translation,
             "notes": self.notes,
+            "source_delta": [f"{f}::{u}" for f, u in self.delta],
+            "escalated_to_thorough": self.escalated,
         }
         cov.update(self.extra)
-        ev = {"property_id": self.prop, "tier": self.tier, "seed": self.seed, "level": "proof",
+        ev = {"property_id": self.prop, "tier": self.requested_tier, "seed": self.seed, "level": "proof",
               "coverage": cov, "assumptions": self.assumptions, "wall_s": round(time.time() - self.t0, 2),
               "violations": nviol}
         os.makedirs(os.path.join(VERIF, "evidence"), exist_ok=True)
